@@ -250,13 +250,13 @@ func blameShared(e *tbl.Expr, path string) string {
 	if probes()[alloc.Comb()] || alloc.Parent == nil {
 		return alloc.Comb()
 	}
-	return alloc.Parent.comb()
+	return alloc.Parent.Comb()
 }
 
 func blameDiff(e *tbl.Expr, path string) string {
 	at, _ := e.Tree.NodeAt(path)
 	if at.IsLeaf() && at.Parent != nil {
-		return at.Parent.comb()
+		return at.Parent.Comb()
 	}
 	return at.Comb()
 }
